@@ -231,6 +231,12 @@ def progChanCmp : Prog := main [.declz (.chan .both (.basic .int)), .declz (.cha
 theorem accepts_welltyped_witness :
     verdictG progFloatZero = .ok ∧ verdictY progFloatZero = .err ∧ verdictG progChanCmp = .ok ∧ verdictY progChanCmp = .err := by
   unfold verdictY; rw [tcfacts_tie]; decide
+/-- `var c chan int; var e interface{} = <-c; e = "s"` is valid Go; the declaration retypes `e` to `int`
+    ("assign by reading from a receiving channel": `dest.typ = src.typ`), so the assignment is rejected -/
+def progRecvRetype : Prog := main [.declz (.chan .both (.basic .int)), .decl (.iface 0 []) (.recv (.var 0)),
+  .assign 1 (.lit .string 0 false)]
+theorem receive_retypes_witness : verdictG progRecvRetype = .ok ∧ verdictY progRecvRetype = .err ∧ DomP progRecvRetype = false := by
+  unfold verdictY DomP; rw [tcfacts_tie]; decide
 theorem accepts_welltyped_full_false : ¬ AcceptsWelltyped := fun h => by
   have := h progFloatZero accepts_welltyped_witness.1
   rw [accepts_welltyped_witness.2.1] at this
@@ -276,6 +282,33 @@ theorem cond_typed_correct (x : Opnd) (hx : x.rv = .none) (hxt : x.ty.isUntyped 
   rw [tcfacts_tie]; exact cond_typed_agree x hx hxt
 theorem recv_typed_correct (x : Opnd) (hxt : x.ty.isUntyped = false) : recvY Generated.C12.tcFacts x = Spec.recvG x := by
   exact recv_typed_agree _ x hxt
+
+/-- arithmetic operators on typed non-constant operands of non-interface types (outside a propagation zone),
+    shifts and index expressions on typed non-constant operands: always decided as the specification says -/
+theorem arith_typed_correct (op : BinOp) (x y : Opnd) (hop : op.propagates = true)
+    (hx : x.rv = .none) (hy : y.rv = .none) (hxt : x.ty.isUntyped = false) (hyt : y.ty.isUntyped = false)
+    (hxi : x.ty.isIface = false) (hyi : y.ty.isIface = false) :
+    binY Generated.C12.tcFacts op none x y = Spec.binG op none x y := by
+  rw [tcfacts_tie]; exact arith_typed_agree op x y hop hx hy hxt hyt hxi hyi
+theorem shift_typed_correct (op : ShOp) (x y : Opnd) (hx : x.rv = .none) (hy : y.rv = .none)
+    (hxt : x.ty.isUntyped = false) (hyt : y.ty.isUntyped = false) :
+    shiftY Generated.C12.tcFacts op x y = Spec.shiftG op x y := by
+  rw [tcfacts_tie]; exact shift_typed_agree op x y hx hy hxt hyt
+theorem index_typed_correct (a i : Opnd) (ha : a.rv = .none) (hi : i.rv = .none) (hit : i.ty.isUntyped = false)
+    (hb : (match a.ty with | .slice _ => true | .array _ _ => true | .s t => t.under == .string | _ => false) = true) :
+    indexY Generated.C12.tcFacts a i = Spec.indexG a i := by
+  rw [tcfacts_tie]; exact index_typed_agree a i ha hi hit hb
+
+/-- comparisons of typed non-constant operands of non-interface types: `typecheck.comparison` decides as the
+    specification does unless the two types collide in reflect or are channels of different directions
+    (this is the check the mutant "comparison accepts mismatched operands" breaks) -/
+theorem comparison_typed_correct (op : CmpOp) (x y : Opnd)
+    (hx : x.rv = .none) (hy : y.rv = .none) (hxt : x.ty.isUntyped = false) (hyt : y.ty.isUntyped = false)
+    (hxi : x.ty.isIface = false) (hyi : y.ty.isIface = false)
+    (h2 : reflectCollision x.ty y.ty = false) (h2' : reflectCollision y.ty x.ty = false)
+    (hcd : (Spec.assignableTyG x.ty y.ty || Spec.assignableTyG y.ty x.ty) = true → x.ty = y.ty) :
+    cmpY Generated.C12.tcFacts op x y = Spec.cmpG op x y := by
+  rw [tcfacts_tie]; exact cmp_typed_agree op x y hx hy hxt hyt hxi hyi h2 h2' hcd
 
 /-- arity of calls: with the comparison operator extracted from `arguments`, a call whose arguments are each
     individually assignable is accepted exactly when the counts match -/
